@@ -70,7 +70,7 @@ fn do_load(syms: &Syms, dir: &str, skip_icu: bool) -> Value {
     let r = run_caught(move || parse_locales::parse_locales(skip_icu, Some(d)));
     match r {
         Err(msg) => json!({"outcome": "Panic", "panic": msg}),
-        Ok(Err(e)) => json!({"outcome": "Err", "errClass": error_class(&e), "errText": e.to_string()}),
+        Ok(Err(e)) => json!({"outcome": "Err", "errClass": error_class(&e), "errText": e.to_string(), "errQuoted": quoted_segments(&e.to_string())}),
         Ok(Ok((bk, warnings, files))) => {
             let proj = run_caught(std::panic::AssertUnwindSafe(|| builders_keys(syms, &bk)));
             let warns: Vec<Value> = warnings.into_inner().iter().map(warning).collect();
